@@ -27,7 +27,7 @@ CHECKS = {
    note="RefPP is the trusted reference; inputs with stray #else/#endif are not asserted",
    technique="exhaustive small-scope enumeration against a reference evaluator"),
  "C03": dict(cat="exploration", design="§5 C03",
-   text="Totality oracle (catch_unwind, supervisor process for aborts/stack overflows, deterministic budgets for parser, include traversal and class-hierarchy walks) over ~20k generated multi-file workspaces per quick run - semantic stress patterns (incl. extreme integers wherever positions and widths are computed), shapes whose cost must stay polynomial (class lattices to depth 64, long chains, wide parent lists), name-colliding 'soup' programs, their typing prefixes and single-token edits, grammar programs, seed and real LLVM files - each swept with the full query set at every offset (small files) or every token boundary.",
+   text="Totality oracle (catch_unwind, supervisor process for aborts/stack overflows, deterministic budgets for parser, include traversal and class-hierarchy walks) over ~20k generated multi-file workspaces per quick run - semantic stress patterns (incl. extreme integers wherever positions and widths are computed), shapes whose cost must stay polynomial (class lattices to depth 64, long chains, wide parent lists, multiclasses whose records double with every inner defm - self-instantiating, chained, ambiguous prefixes), name-colliding 'soup' programs, their typing prefixes and single-token edits, grammar programs, seed and real LLVM files - each swept with the full query set at every offset (small files) or every token boundary.",
    note="acyclic include graphs only (cycles: C16); 256 MiB stacks; in-memory FileSystem implementation of the harness",
    technique="property-based testing / fuzzing of the analysis API with crash isolation"),
  "C06": dict(cat="exploration", design="§5 C06",
